@@ -708,6 +708,17 @@ pub fn edit_models(rng: &mut Rng, m: &mut Vec<TableDef>, profile: Profile) -> &'
             // enum label edits
             let t = &mut m[ti];
             for c in t.columns.iter_mut() {
+                if let ColumnType::Complex(ComplexColumnType::Enum { values, name: _ }) = &mut c.r#type {
+                    if rng.chance(1, 4) {
+                        // flip the enum's kind keeping the same labels in the same order (string <-> integer)
+                        *values = match values.clone() {
+                            EnumValues::String(l) => EnumValues::Integer(l.iter().enumerate().map(|(i, n)| NumValue { name: n.clone(), value: i as i32 }).collect()),
+                            EnumValues::Integer(l) => EnumValues::String(l.iter().map(|v| v.name.clone()).collect()),
+                        };
+                        c.default = None;
+                        return "enum_kind_flip";
+                    }
+                }
                 if let ColumnType::Complex(ComplexColumnType::Enum { values, name }) = &mut c.r#type {
                     match values {
                         EnumValues::String(l) => match rng.below(3) {
